@@ -65,7 +65,7 @@ func registerBW() {
 }
 
 func bwC12Legs() []Leg {
-	return []Leg{{World: "bw", Profile: "faultsweep", Quick: 24, Weight: 3}, {World: "bw", Profile: "errors", Quick: 2000, Weight: 1}}
+	return []Leg{{World: "bw", Profile: "faultsweep", Quick: 16, Weight: 3}, {World: "bw", Profile: "errors", Quick: 1500, Weight: 1}, {World: "bw", Profile: "post", Quick: 800, Weight: 1}}
 }
 
 func bwC19Legs() []Leg {
